@@ -8,18 +8,20 @@ BIG == 1000000
 AllTraces == JsonDeserialize(IOEnv.TRACES)
 NTraces == Len(AllTraces)
 
-InitRegs == \A i \in 1..NTraces : TLCSet(i, 0) /\ TLCSet(BIG + i, 0)
+InitRegs == \A i \in 1..NTraces : TLCSet(i, 0) /\ TLCSet(BIG + i, 0) /\ TLCSet(2 * BIG + i, {})
 
-\* CONSTRAINT helper: remember the furthest line reached for trace `t` and whether it was consumed completely
-Progress(t, l, len) ==
+\* CONSTRAINT helper.  Register i: furthest line reached for trace i.  Register BIG+i: 1 once SOME explanation
+\* consumed the whole trace with every monitor clause TRUE (the trace is then accepted and no longer expanded).
+\* Register 2*BIG+i: the failing clauses of the first complete explanation that had some (reported only if no
+\* clean explanation exists: acceptance is existential over the placements of the unlogged steps).
+Progress(t, l, len, viol) ==
     /\ (IF TLCGet(t) < l THEN TLCSet(t, l) ELSE TRUE)
-    /\ (l = len + 1 => TLCSet(BIG + t, 1))
-
-\* print one VIOL line per failing monitor clause (deduplicated by the harness)
-ReportViol(t, l, viol) == \A c \in viol : PrintT(<<"VIOL", t, c, l>>)
+    /\ (l = len + 1 =>
+          IF viol = {} THEN TLCSet(BIG + t, 1)
+          ELSE IF TLCGet(2 * BIG + t) = {} THEN TLCSet(2 * BIG + t, viol) ELSE TRUE)
 
 \* POSTCONDITION
-Post == \A i \in 1..NTraces : PrintT(<<"TRACE", i, TLCGet(BIG + i) = 1, TLCGet(i)>>)
+Post == \A i \in 1..NTraces : PrintT(<<"TRACE", i, TLCGet(BIG + i) = 1, TLCGet(i), TLCGet(2 * BIG + i)>>)
 
 Has(r, f) == f \in DOMAIN r
 Get(r, f, d) == IF f \in DOMAIN r THEN r[f] ELSE d
